@@ -197,3 +197,41 @@ Proof.
               (N.eqb (N.land (get_permissions (fs w) outf) write_mask) 0) ar s2 w4) as (st_d & w' & E & Hd).
   exists st_d, w'. split; [exact E|congruence].
 Qed.
+
+(* ---------- C04: the failure flag tells the truth ---------- *)
+(* a patch that deletes its file (or leaves nothing of it) but whose result is not empty, with /dev/null as new name *)
+Definition leftover (o : options) (ar : aresult) : bool :=
+  let p3 := r_patch ar in
+  negb (str_eqb (out_file_path o) (bs "-")) &&
+  (negb (r_skipped ar) && match remove_empty_files o with
+                          | OBYes => match poper p3 with
+                                     | OpDelete => true
+                                     | OpChange => match hunks p3 with h :: _ => Z.eqb (rstart (newr h)) 0 && Z.eqb (rcount (newr h)) 0 | [] => false end
+                                     | _ => false
+                                     end
+                          | _ => false
+                          end) &&
+  negb (is_nil (lines_bytes (newline_output o) (r_out ar))) && str_eqb (new_path p3) devnull.
+
+Lemma tail_report_flag o st ar :
+  had_failure (tail_report o st ar) = had_failure st || negb (Nat.eqb (r_failed ar) 0) || leftover o ar.
+Proof.
+  unfold tail_report, leftover.
+  destruct (negb (Nat.eqb (r_failed ar) 0)); destruct (str_eqb (out_file_path o) (bs "-")); cbn [negb andb orb had_failure set_failure add_event];
+    rewrite ?orb_true_r, ?orb_false_r; try reflexivity.
+  - match goal with |- had_failure (if ?c then _ else _) = _ => destruct c end; reflexivity.
+  - destruct (poper (r_patch ar)) eqn:Ep; cbn [andb];
+      match goal with |- had_failure (if ?c then _ else _) = _ || ?d => replace d with c; [destruct c; cbn; rewrite ?orb_true_r, ?orb_false_r; reflexivity|] end;
+      try reflexivity; destruct (remove_empty_files o); reflexivity.
+Qed.
+
+(* After the hunks of a section have been applied (result ar), the failure flag — which becomes exit status 1 — is set
+   exactly when it was set before, or some hunk was rejected / the patch was skipped (r_failed counts the rejects, see
+   apply_patch_replay), or a deletion left content behind. *)
+Theorem section_failure_flag o st ftp outf op op1 needed ar s2 :
+  Post (section_tail o st ftp outf op op1 needed ar s2)
+       (fun y => had_failure (fst y) = had_failure st || negb (Nat.eqb (r_failed ar) 0) || leftover o ar).
+Proof.
+  intros w y w' H. destruct (tail_real o st ftp outf op op1 needed ar s2 w y w' H) as [Hs _].
+  unfold seen in Hs. inversion Hs as [[Hf He]]. rewrite Hf. apply tail_report_flag.
+Qed.
